@@ -29,4 +29,24 @@ PROPS = {
         ],
         trusted_base=["PyYAML 6.0.3 (oracle of the bounded stand-in only)"],
     ),
+    "C19": dict(
+        level="other",
+        contracts=["contracts.inventory"],
+        harness=True,
+        explanation=(
+            "PROVED (all patterns, no bound): _create_regex builds exactly the regex text Rx(pattern) that the statement "
+            "prescribes ('\\*' -> escaped star, '*' -> '.*', any other character -> re.escape of itself; a lone or trailing "
+            "backslash is an ordinary character) by the loop invariant Rx(pat) = regex ++ Rx(pending ++ rest), compiled with "
+            "DOTALL; it allocates but writes nothing (so the lru_cache in front of it is the identity); "
+            "match_with_wildcard(name, None) is True and otherwise is fullmatch of that regex.  What the regex engine "
+            "matches (re.escape / '.*' / fullmatch semantics) is an ASSUMED contract of the stdlib and is cross-checked "
+            "only by the BOUNDED stand-in: match_with_wildcard against the statement's matching relation for all short "
+            "(pattern, name) pairs, and filter_inventories / filter_sphinx_inventories against the nested-loop "
+            "specification on generated inventories (order, exactness, native vs Sphinx representation)."
+        ),
+        assumptions=ENC + [
+            "functools.lru_cache is the identity on a function that is pure up to allocation (proved: modifies = fresh only)",
+        ],
+        trusted_base=["CPython `re` (semantics of the generated regex: assumed, bounded cross-check only)"],
+    ),
 }
